@@ -646,7 +646,7 @@ ZDICT_optimizeTrainFromBuffer_fastCover(
      * capping here keeps `k += kStepSize` below from wrapping around for k close to 2^32 */
     const unsigned kMaxK = (kMaxKRequested > dictBufferCapacity) ? (unsigned)dictBufferCapacity : kMaxKRequested;
     const unsigned kSteps = parameters->steps == 0 ? 40 : parameters->steps;
-    const unsigned kStepSize = MAX((kMaxK - kMinK) / kSteps, 1);
+    const unsigned kStepSize = MAX((kMaxKRequested - kMinK) / kSteps, 1);   /* the candidates are those of the requested range */
     const unsigned kIterations =
         (1 + (kMaxD - kMinD) / 2) * (1 + (kMaxK - kMinK) / kStepSize);
     const unsigned f = parameters->f == 0 ? DEFAULT_F : parameters->f;
